@@ -66,3 +66,34 @@ def pick(x, choices):
         if x == c:
             return c
     raise AssertionError('value outside the declared choices')
+
+
+class _NullCtx(object):
+    def __enter__(self):
+        return self
+
+    def __exit__(self, *a):
+        return False
+
+
+def untraced():
+    """context manager: run a block whose data is fully concrete (every solver variable it depends on was turned into
+    a constant by pick()) with CrossHair's tracing switched off - plain Python speed, same semantics"""
+    try:
+        from crosshair.tracers import NoTracing, is_tracing
+        if is_tracing():
+            return NoTracing()
+    except Exception:
+        pass
+    return _NullCtx()
+
+
+def resumed():
+    """context manager: switch tracing back on inside an untraced() block, to read a solver variable"""
+    try:
+        from crosshair.tracers import ResumedTracing, is_tracing
+        if MODE in ('check', 'witness') and not is_tracing():
+            return ResumedTracing()
+    except Exception:
+        pass
+    return _NullCtx()
